@@ -2,22 +2,23 @@
 
 TLC enumerates spec/PyModules.tla: for every world (package layout with fixed
 library modules) every body of the module under tidying that can be written
-from the statement alphabet, checks on the model that the reference tidying
-operators keep the observable (ObsPreserved, OnlyImportsChange, Idempotent,
-ExportsKept) and exports one record per complete program with the spec's
-prediction: the lines every module prints when it is the entry, and the names
-each module exports.
+from the statement alphabet.  On the model it checks that the reference
+tidying operators keep the observable (ObsPreserved, OnlyImportsChange,
+Idempotent, ExportsKept, StillWellFormed), and it exports one record per
+complete program with the spec's predictions: the lines every module prints
+when it is the entry, the names each module exports, the feature tags.
 
 Every exported program is rendered to a real project.  CPython is run first
 (spec vs CPython, exit 2 on disagreement); then each tidying action of
-rope.refactor.importutils.ImportOrganizer is applied under each preference
-set, the project is run again, and the clauses are judged on what is observed.
+rope.refactor.importutils.ImportOrganizer is applied under several preference
+sets, the project is run again, the action is applied a second time, and the
+clauses are judged on what is observed.  A failing request is reduced to the
+minimal failing programs TLC also enumerated (cores); a core is reported unless
+a known finding lists its clause, action and feature tag.
 """
-import json
-import os
 import sys
 
-from engine import common, tlc, replay
+from engine import common
 from bind import _pymodules as pm
 
 PROP = "C07"
@@ -30,67 +31,91 @@ ROPE_CALL = {
     "LongImports": "handle_long_imports",
 }
 PREF_KEYS = (("split", "split_imports"), ("top", "pull_imports_to_top"), ("alpha", "sort_imports_alphabetically"))
-
 INVARIANTS = ["ObsPreserved", "OnlyImportsChange", "Idempotent", "ExportsKept", "StillWellFormed"]
-
-
-def base_constants():
-    return {
-        "Worlds": tlc.Sub("MCWorlds"),
-        "DefNames": {"f", "g", "_h"},
-        "Private": {"_h"},
-        "OwnDefs": {"h"},
-        "ImpAlias": "x",
-        "FromAlias": "y",
-        "Forms": {"import", "from", "star"},
-        "Features": set(),
-        "MaxImports": 2,
-        "MaxUses": 1,
-        "MaxStmts": 3,
-        "MaxChain": 3,
-        "FnFlags": {False},
-        "Rank": tlc.Sub("MCRank"),
-        "LongDepth": 3,
-        "Actions": set(ROPE_CALL),
-        "PrefSets": tlc.Sub("DefaultPrefs"),
-    }
-
-
-def scope(worlds, forms, imports, uses, stmts, owndefs=(), features=(), **over):
-    c = base_constants()
-    c.update({"Worlds": tlc.Sub(worlds), "Forms": set(forms.split(",")), "MaxImports": imports,
-              "MaxUses": uses, "MaxStmts": stmts, "OwnDefs": set(owndefs), "Features": set(features)})
-    c.update(over)
-    return c
+ALL_PREFS = [{"split": bool(a), "top": bool(b), "alpha": bool(c)} for a in (0, 1) for b in (0, 1) for c in (0, 1)]
+DEFAULT_PREFS = {"split": False, "top": True, "alpha": False}
 
 
 def scopes(tier):
-    """list of (scope name, constants): each is one exhaustive TLC run.
-    Upper-case scopes are the plain fragment (no feature of Tags in spec/PyModules.tla); a
-    lower-case scope adds exactly one feature."""
-    both = {"FnFlags": {False, True}}
+    """[(scope name, constants)]: each is one exhaustive TLC run.  Upper-case scopes are the plain
+    fragment (none of the features of `Tags` in spec/PyModules.tla); a lower-case scope admits
+    exactly one feature.  The quick tier uses the same scopes with one statement less."""
+    q = tier == "quick"
+
+    def sc(worlds, forms, imports, uses, stmts, qforms=None, **kw):
+        if q:
+            forms = qforms or forms
+            uses, stmts = min(uses, 1), min(stmts, 3)
+            if kw.get("features") == ("twopaths",):
+                uses, stmts = 2, 4
+            kw.pop("FnFlags", None)
+        return pm.scope(ROPE_CALL, worlds, forms, imports, uses, stmts, **kw)
+
+    both = {False, True}
     return [
-        ("A", scope("WorldsFlat", "import,importas,from,fromas,star", 2, 2, 4)),
-        ("B", scope("WorldsFlat", "from,from2,import2,all", 2, 1, 4, owndefs=("h",))),
-        ("C", scope("WorldsFlat", "import,from,star", 3, 1, 4, **both)),
-        ("E", scope("WorldsPkg", "import,importas,from,rel,relstar", 2, 1, 3)),
-        ("F", scope("WorldsInit", "rel,relstar,from,all", 2, 1, 3)),
-        ("G", scope("WorldsDeep", "import,importas,from,rel", 2, 2, 4)),
-        ("late", scope("WorldsFlat", "import,importas,from,fromas,star", 2, 2, 4, features=("late",))),
-        ("future", scope("WorldsFlat", "import,from,future", 2, 1, 4, features=("future",))),
-        ("rebind", scope("WorldsFlat", "importas,from,fromas,star", 2, 1, 3, features=("rebind",))),
-        ("twopaths", scope("WorldsFlat", "import,importas,from,fromas", 2, 2, 4, features=("twopaths",))),
-        ("starplus", scope("WorldsFlat", "import,from,star", 2, 2, 4, features=("starplus",))),
-        ("starall", scope("WorldsFlat", "from,star", 2, 1, 3, features=("starall",))),
-        ("allimport", scope("WorldsFlat", "import,from,from2,all", 2, 1, 4, features=("allimport",))),
-        ("reexport", scope("WorldsReexp", "import,from,fromas,star,all", 2, 1, 3, features=("reexport",))),
-        ("reexportinit", scope("WorldsInit", "rel,relstar,from,all", 2, 1, 3, features=("reexport",))),
-        ("initsub", scope("WorldsInit", "rel,from", 2, 1, 3, features=("initsub",))),
+        ("A", sc("WorldsFlat", "import,importas,from,fromas,star", 2, 2, 4)),
+        ("B", sc("WorldsFlat", "from,from2,import2,all", 2, 1, 4, owndefs=("h",))),
+        ("C", sc("WorldsFlat", "import,from,star", 3 if not q else 2, 1, 4, FnFlags=both)),
+        ("E", sc("WorldsPkg", "import,importas,from,rel,rel2,relstar", 2, 1, 3, qforms="import,from,rel,rel2,relstar")),
+        ("F", sc("WorldsInit", "rel,relstar,from,all", 2, 1, 3, qforms="rel,all")),
+        ("G", sc("WorldsDeep", "import,importas,from,rel", 2, 2, 4, qforms="import,importas,rel")),
+        ("late", sc("WorldsFlat", "import,importas,from,fromas,star", 2, 2, 4, qforms="import,from",
+                    features=("late",))),
+        ("future", sc("WorldsFlat", "import,from,future", 2, 1, 4, features=("future",))),
+        ("rebind", sc("WorldsFlat", "importas,from,fromas,star", 2, 1, 3, qforms="from,star", features=("rebind",))),
+        ("twopaths", sc("WorldsFlat", "import,importas,from,fromas", 2, 2, 4, qforms="importas,from",
+                        features=("twopaths",))),
+        ("starplus", sc("WorldsFlat", "import,from,star", 2, 2, 4, features=("starplus",))),
+        ("starall", sc("WorldsFlat", "from,star", 2, 1, 3, features=("starall",))),
+        ("allimport", sc("WorldsFlat", "import,from,from2,all", 2, 1, 4, qforms="from,all", features=("allimport",))),
+        ("reexport", sc("WorldsReexp", "import,from,fromas,star,all", 2, 1, 3, qforms="from,star",
+                        features=("reexport",))),
+        ("reexportinit", sc("WorldsInit", "rel,relstar,from,all", 2, 1, 3, qforms="rel,relstar",
+                            features=("reexport",))),
+        ("initsub", sc("WorldsInit", "rel,from", 2, 1, 3, qforms="rel", features=("initsub",))),
+        ("fromsub", sc("WorldsPkgDeepIn", "import,from,rel", 2, 1, 3, qforms="rel", features=("fromsub",))),
+        ("siblings", sc("WorldsPkgDeep", "import,importas", 2, 2, 4, qforms="import", features=("siblings",))),
     ]
 
 
-QUICK_PER_SCOPE = {"A": 300, "B": 300, "C": 300, "E": 300, "F": 200, "G": 300}
-QUICK_FEATURE_SCOPE = 100
+def quick_limit(name):
+    """the quick tier replays every program of at most two statements and, per scope, this many
+    larger ones (seeded)"""
+    return 90 if name.isupper() else 25
+
+
+def act_key(act):
+    p = act["prefs"]
+    return "%s|%s|split=%d,top=%d,alpha=%d" % (act["name"], ".".join(act["m"]), p["split"], p["top"], p["alpha"])
+
+
+def acts_of(prog, consts, rnd, tier="quick"):
+    """the requests tried on one program.  quick: every action under the default preferences and
+    without pull_imports_to_top, organize under two more seeded preference sets, one seeded random
+    (action, preference set).  thorough (independent of the seed): every action with and without
+    pull_imports_to_top, organize under all eight preference sets, handle_long_imports (which
+    organizes without sorting) under the four without sort_imports_alphabetically."""
+    acts = {}
+
+    def add(name, m, prefs):
+        a = {"name": name, "m": m, "prefs": dict(prefs)}
+        acts.setdefault(act_key(a), a)
+
+    names = sorted(consts["Actions"])
+    for m in sorted(prog["tidy"]):
+        for name in names:
+            add(name, m, DEFAULT_PREFS)
+            add(name, m, dict(DEFAULT_PREFS, top=False))
+        if tier == "quick":
+            for prefs in rnd.sample(ALL_PREFS, 2):
+                add("Organize", m, prefs)
+            add(rnd.choice(names), m, rnd.choice(ALL_PREFS))
+        else:
+            for prefs in ALL_PREFS:
+                add("Organize", m, prefs)
+                if not prefs["alpha"]:
+                    add("LongImports", m, prefs)
+    return list(acts.values())
 
 
 # ------------------------------------------------------------------ replay
@@ -123,8 +148,8 @@ def apply_action(root, target_file, action, prefs):
 
 
 def replay_program(item):
-    """One exported program: cross-check the spec's prediction with CPython, then judge
-    every tidying action x preference set on the real rope."""
+    """One exported program: cross-check the spec's prediction with CPython, then judge every
+    requested tidying action x preference set on the real rope."""
     common.use_repo()
     prog = item["prog"]
     mods = sorted(prog["mods"], key=lambda m: m["m"])
@@ -133,24 +158,24 @@ def replay_program(item):
     exp_err = {pm.apath(o["m"]): o["err"] for o in prog["obs"]}
     want_names = {a: sorted(v) for a, v in exp_names.items()}
     out = {"fails": [], "counts": {}, "machinery": None, "n_actions": 0, "scope": item["scope"],
-           "pkey": prog_key(prog), "akeys": [act_key(a) for a in item["acts"]], "sample": None}
+           "pkey": pm.prog_key(prog), "akeys": [act_key(a) for a in item["acts"]], "sample": None}
     root = common.scratch("c07_")
     try:
         files0 = pm.render_project(root, mods)
         pre = pm.observe(root, mods, want_names, fresh_check=item.get("fresh", False))
         for a in exp_lines:
             got = pre[a]
-            if got["lines"] != exp_lines[a] or (got["exc"] or "") != exp_err[a] or got["exports"] != exp_names[a]:
+            if got["lines"] != exp_lines[a] or (got["exc"] or "") != exp_err[a] or pm.heads(got["exports"]) != exp_names[a]:
                 out["machinery"] = "spec vs CPython: module %s spec lines=%r err=%r exports=%r, CPython %r; files=%r" % (
                     a, exp_lines[a], exp_err[a], exp_names[a], got, files0)
                 return out
+        memo = {}
         for act in item["acts"]:
             out["n_actions"] += 1
             target = act["m"]
             tmod = [m for m in mods if m["m"] == target][0]
             tfile = pm.file_of(target, tmod["pkg"])
             common.rmtree(root)
-            os.mkdir(root)
             pm.write_files(root, files0)
             status, detail = apply_action(root, tfile, act["name"], act["prefs"])
             out["counts"][status] = out["counts"].get(status, 0) + 1
@@ -160,23 +185,26 @@ def replay_program(item):
                 fails.append(("NoInternalError", detail))
             elif status == "changed":
                 files1 = pm.read_files(root)
-                fails += judge_post(root, mods, files0, files1, tfile, exp_lines, exp_names, want_names)
-            if status in ("changed", "none") and not fails:
-                # second application on the result
+                mk = tuple(sorted(files1.items()))
+                if mk not in memo:
+                    memo[mk] = judge_post(root, mods, files0, files1, tfile, exp_lines, exp_names, want_names)
+                fails += memo[mk]
+            if status == "changed" and not fails:
+                # second application, on the result of the first
                 st2, det2 = apply_action(root, tfile, act["name"], act["prefs"])
                 if st2 == "changed":
                     files2 = pm.read_files(root)
-                    base = files1 or files0
-                    same = all(files2.get(rel) == base.get(rel) for rel in set(base) | set(files2) if rel != tfile)
+                    same = all(files2.get(rel) == files1.get(rel) for rel in set(files1) | set(files2) if rel != tfile)
                     # "changes nothing" is judged up to layout: blank lines and the mutual order of
                     # import statements (rope sorts a set of statements with a key that can tie)
-                    if not same or pm.normal_form(files2.get(tfile, "")) != pm.normal_form(base.get(tfile, "")):
+                    if not same or pm.normal_form(files2.get(tfile, "")) != pm.normal_form(files1.get(tfile, "")):
                         fails.append(("Idempotent", {"second": files2.get(tfile)}))
                 elif st2 == "crash":
                     fails.append(("Idempotent", "second application: " + str(det2)))
             if status == "changed" and out["sample"] is None and item.get("fresh"):
                 out["sample"] = {"world": prog["world"], "request": act_key(act), "before": files0.get(tfile),
-                                 "after": files1.get(tfile), "spec_lines": exp_lines, "verdict": [c for c, _ in fails] or "ok"}
+                                 "after": files1.get(tfile), "spec_lines": exp_lines,
+                                 "verdict": [c for c, _ in fails] or "ok"}
             for clause, detail in fails:
                 out["fails"].append({"clause": clause, "act": act, "detail": detail,
                                      "before": files0.get(tfile), "after": (files1 or {}).get(tfile)})
@@ -187,8 +215,8 @@ def replay_program(item):
 
 def judge_post(root, mods, files0, files1, tfile, exp_lines, exp_names, want_names):
     fails = []
-    # only the tidied module may change, and only in its imports / forced references
-    for rel in set(files0) | set(files1):
+    # only the tidied module may change, and only in its imports / the references they force
+    for rel in sorted(set(files0) | set(files1)):
         if rel != tfile and files0.get(rel) != files1.get(rel):
             fails.append(("OnlyImportsChange", {"other file changed": rel}))
     if not pm.compiles(files1[tfile]):
@@ -203,272 +231,27 @@ def judge_post(root, mods, files0, files1, tfile, exp_lines, exp_names, want_nam
         fails.append(("ObsPreserved", {a: {"want": exp_lines[a], "got": v["lines"], "exc": v["exc"]}
                                        for a, v in bad_obs.items()}))
     bad_exp = {a: post[a]["exports"] for a in exp_names
-               if post[a]["exc"] is None and post[a]["exports"] != exp_names[a]}
+               if post[a]["exc"] is None and pm.heads(post[a]["exports"]) != exp_names[a]}
     if bad_exp:
         fails.append(("ExportsKept", {a: {"want": exp_names[a], "got": v} for a, v in bad_exp.items()}))
     return fails
 
 
-# ------------------------------------------------------------------ cores
-def prog_key(prog):
-    """identity of a program inside one scope: world + bodies of the modules TLC wrote"""
-    opened = sorted(prog["open"])
-    bodies = [[m["body"] for m in prog["mods"] if m["m"] == o][0] for o in opened]
-    return common.digest([prog["world"], opened, bodies])
-
-
-def act_key(act):
-    p = act["prefs"]
-    return "%s|%s|split=%d,top=%d,alpha=%d" % (act["name"], ".".join(act["m"]), p["split"], p["top"], p["alpha"])
-
-
-def sub_bodies(body):
-    """every proper sub-sequence of a statement list"""
-    n = len(body)
-    for mask in range((1 << n) - 1):
-        yield [body[i] for i in range(n) if mask >> i & 1]
-
-
-def sub_keys(prog):
-    """keys of all programs obtained by deleting statements of the written modules"""
-    opened = sorted(prog["open"])
-    bodies = [[m["body"] for m in prog["mods"] if m["m"] == o][0] for o in opened]
-    if len(opened) != 1:
-        # product over the written modules
-        import itertools
-        alls = [list(sub_bodies(b)) + [b] for b in bodies]
-        for combo in itertools.product(*alls):
-            if list(combo) != bodies:
-                yield common.digest([prog["world"], opened, list(combo)])
-        return
-    for sb in sub_bodies(bodies[0]):
-        yield common.digest([prog["world"], opened, [sb]])
-
-
-def size_of(prog):
-    return sum(len(m["body"]) for m in prog["mods"] if m["m"] in prog["open"])
-
-
-def shape(prog, act):
-    """the written modules of a (minimal failing) program with every name replaced by its order of
-    first appearance: the class of input a finding is matched by"""
-    names = {}
-
-    def t(n):
-        if n == "*":
-            return "*"
-        if n not in names:
-            names[n] = "n%d" % (len(names) + 1)
-        return names[n]
-
-    def path(p):
-        return ".".join(t(x) for x in p)
-
-    def stmt(s):
-        k = s["k"]
-        if k == "import":
-            return "import " + ", ".join(path(i["path"]) + (" as " + t(i["as"]) if i["as"] else "") for i in s["items"])
-        if k == "from":
-            return "from %s%s import %s" % ("." * s["level"], path(s["path"]), ", ".join(
-                t(i["n"]) + (" as " + t(i["as"]) if i["as"] else "") for i in s["items"]))
-        if k == "future":
-            return "future"
-        if k == "def":
-            return "def " + t(s["n"])
-        if k == "all":
-            return "__all__=[%s]" % ",".join(t(n) for n in s["names"])
-        if k == "use":
-            return ("usefn " if s["fn"] else "use ") + path(s["e"])
-        raise ValueError(s)
-
-    parts = []
-    for o in sorted(prog["open"]):
-        body = [m["body"] for m in prog["mods"] if m["m"] == o][0]
-        tag = "tidied" if o == act["m"] else "other"
-        parts.append("%s{%s}" % (tag, "; ".join(stmt(s) for s in body)))
-    return prog["world"] + ":" + " ".join(parts)
-
-
-# ------------------------------------------------------------------ driver
-ALL_PREFS = [{"split": bool(a), "top": bool(b), "alpha": bool(c)} for a in (0, 1) for b in (0, 1) for c in (0, 1)]
-DEFAULT_PREFS = {"split": False, "top": True, "alpha": False}
-
-
-def run_scope(name, consts, coverage=False, workers=4):
-    cfg = os.path.join(common.SCRATCH_BASE, "c07_%s_%d.cfg" % (name, os.getpid()))
-    tlc.write_cfg(cfg, constants=consts, invariants=INVARIANTS + ["Export"])
-    progs = []
-    res = tlc.run("MC_PyModules", cfg, on_tagged=lambda t, v: progs.append(v), collect_tags=False,
-                  coverage=coverage, workers=workers, java_opts=("-Xmx4g",))
-    os.unlink(cfg)
-    return name, res, progs
-
-
-def acts_of(prog, consts, rnd, tier):
-    """the requests tried on one program: every action under the default preferences, organize
-    under all eight preference sets, the other actions without pull_imports_to_top, and one
-    seeded random preference set for every action"""
-    acts = []
-    for m in sorted(prog["tidy"]):
-        for name in sorted(consts["Actions"]):
-            prefsets = [DEFAULT_PREFS]
-            if name == "Organize":
-                prefsets = ALL_PREFS
-            else:
-                prefsets = [DEFAULT_PREFS, dict(DEFAULT_PREFS, top=False), rnd.choice(ALL_PREFS)]
-            seen = set()
-            for prefs in prefsets:
-                k = json.dumps(prefs, sort_keys=True)
-                if k not in seen:
-                    seen.add(k)
-                    acts.append({"name": name, "m": m, "prefs": prefs})
-    return acts
-
-
 def main(tier):
-    timer = common.Timer()
-    verdict = common.Verdict(PROP)
-    rnd = common.rng("c07")
-    only = set(filter(None, os.environ.get("C07_SCOPES", "").split(",")))
-    todo = [(n, c) for n, c in scopes(tier) if not only or n in only]
-    # ---- TLC, scopes side by side
-    from concurrent.futures import ThreadPoolExecutor
-    index = {}        # (scope, prog key) -> program
-    items = []
-    tlc_stats = {}
-    states = transitions = 0
-    exhaustive = True
-    with ThreadPoolExecutor(max_workers=4) as ex:
-        futs = [ex.submit(run_scope, n, c, False, 4) for n, c in todo]
-        for fut, (n, c) in zip(futs, todo):
-            name, res, progs = fut.result()
-            print("TLC PyModules[%s]:" % name, res.summary(), "programs:", len(progs))
-            tlc_stats[name] = dict(res.summary(), programs=len(progs))
-            states += res.distinct
-            transitions += res.generated
-            if not res.ok:
-                if res.violated:
-                    verdict.machinery_failure("TLC: clause %s fails on the reference refactoring of the model "
-                                              "(scope %s)\n%s" % (res.violated, name, res.trace[-3000:]))
-                else:
-                    verdict.machinery_failure("TLC[%s]: %s\n%s" % (name, res.error, res.tail[-2000:]))
-                continue
-            progs.sort(key=lambda p: json.dumps(p, sort_keys=True))
-            for p in progs:
-                index[(name, prog_key(p))] = p
-            limit = QUICK_PER_SCOPE.get(name, QUICK_FEATURE_SCOPE) if tier == "quick" else None
-            if os.environ.get("C07_LIMIT"):
-                limit = int(os.environ["C07_LIMIT"])
-            chosen = progs
-            if limit is not None and len(progs) > limit:
-                exhaustive = False
-                # small programs always (they are the cores), a seeded sample of the rest
-                small = [p for p in progs if size_of(p) <= 2]
-                rest = [p for p in progs if size_of(p) > 2]
-                rnd.shuffle(rest)
-                chosen = small + rest[:max(0, limit - len(small))]
-            for i, p in enumerate(chosen):
-                items.append({"prog": p, "acts": acts_of(p, c, rnd, tier), "scope": name, "fresh": i % 97 == 0})
-    print("TLC done", round(timer.s(), 1), "s; programs to replay:", len(items))
-
-    # ---- replay, then close the failures under deletion of statements
-    failing = {}      # (scope, pkey, akey) -> {clause: failure record}
-    done = set()      # (scope, pkey, akey) replayed
-    counts = {}
-    nacts = 0
-    nprogs = 0
-    changed_progs = set()
-    samples = []
-    rounds = 0
-    while items and rounds < 8:
-        rounds += 1
-        for r in replay.pool_map(replay_program, items, chunk=25):
-            if r.get("machinery"):
-                verdict.machinery_failure(str(r["machinery"])[:1500])
-                continue
-            nprogs += 1
-            nacts += r["n_actions"]
-            for k, v in r["counts"].items():
-                counts[k] = counts.get(k, 0) + v
-            if r["counts"].get("changed"):
-                changed_progs.add((r["scope"], r["pkey"]))
-            for ak in r["akeys"]:
-                done.add((r["scope"], r["pkey"], ak))
-            for f in r["fails"]:
-                failing.setdefault((r["scope"], r["pkey"], act_key(f["act"])), {})[f["clause"]] = f
-            if r.get("sample") and len(samples) < 5:
-                samples.append(r["sample"])
-        # sub-programs of failing programs that have not been tried with that request
-        need = {}
-        for (scope, pkey, akey), fl in failing.items():
-            prog = index[(scope, pkey)]
-            act = list(fl.values())[0]["act"]
-            for sk in sub_keys(prog):
-                if (scope, sk) in index and (scope, sk, akey) not in done:
-                    need.setdefault((scope, sk), {})[akey] = act
-        items = [{"prog": index[k], "acts": list(acts.values()), "scope": k[0], "fresh": False}
-                 for k, acts in sorted(need.items())]
-        if items:
-            print("round %d: %d sub-programs of failing programs to replay" % (rounds, len(items)))
-
-    # ---- cores: minimal failing programs; each distinct core is one reported case
-    cores = {}
-    for (scope, pkey, akey), fl in failing.items():
-        prog = index[(scope, pkey)]
-        subs = [sk for sk in sub_keys(prog) if (scope, sk) in index]
-        for clause, f in fl.items():
-            if any(clause in failing.get((scope, sk, akey), {}) for sk in subs):
-                continue
-            key = {"clause": clause, "action": f["act"]["name"], "tags": ",".join(sorted(prog["tags"])),
-                   "core": shape(prog, f["act"]), "prefs": akey.split("|")[2]}
-            cores.setdefault(json.dumps(key, sort_keys=True), (key, f, prog, scope))
-    by_class = {}
-    for ks, (key, f, prog, scope) in sorted(cores.items()):
-        how = verdict.failure(key, {"property": PROP, "key": key, "scope": scope, "program": prog,
-                                    "request": f["act"], "module_before": f["before"], "module_after": f["after"],
-                                    "detail": f["detail"]})
-        by_class.setdefault((how, key["clause"], key["action"], key["core"]), []).append((key, f))
-    if os.environ.get("C07_DUMP"):
-        with open(os.environ["C07_DUMP"], "w") as fh:
-            json.dump([{"key": key, "before": f["before"], "after": f["after"], "detail": f["detail"],
-                        "prog": prog, "scope": scope, "act": f["act"]} for key, f, prog, scope in cores.values()], fh)
-    if os.environ.get("C07_SHOW"):
-        for (how, clause, action, core), lst in sorted(by_class.items()):
-            key, f = lst[0]
-            print("%-9s %-18s %-15s %s  [%s]" % (how, clause, action, core, " ".join(k["prefs"] for k, _ in lst)))
-            print("      before: %r\n      after:  %r\n      detail: %s" % (f["before"], f["after"],
-                                                                           json.dumps(f["detail"])[:300]))
-    nfailing = len(failing)
-    print("replayed programs %d, requests %d %s; failing requests %d -> %d minimal cores; wall %.1fs" % (
-        nprogs, nacts, counts, nfailing, len(cores), timer.s()))
-    if nacts and counts.get("changed", 0) < nacts * 0.05:
-        verdict.machinery_failure("vacuous: rope changed the module in only %d of %d requests" % (
-            counts.get("changed", 0), nacts))
-    for msg in verdict.machinery[:5]:
-        print("MACHINERY:", msg[:1200])
-    code = verdict.finish()
-    if verdict.machinery and code != 2:
-        print("MACHINERY-FAILURE property=%s (%d problems, first shown above)" % (PROP, len(verdict.machinery)))
-        code = 2
-    common.write_evidence(PROP, tier, "model_checking", {
-        "states": states, "transitions": transitions,
-        "traces_validated_against_impl": nacts,
-        "programs_replayed": nprogs,
-        "samples": samples,
-        "exhaustive": exhaustive and tier == "thorough",
-        "distinct_nontrivial": len(changed_progs),
-        "rule": "one request = (program enumerated by TLC, tidying action, preference set); non-trivial program = "
-                "rope changed the module for at least one request",
-        "requests_by_outcome": counts,
-        "failing_requests": nfailing, "minimal_cores": len(cores),
-        "tlc": tlc_stats,
-        "known_finding_hits": verdict.known_hits,
-    }, timer.s(), violations=len(verdict.violations), assumptions=[
-        "programs are straight-line module bodies over the statement alphabet of spec/PyModules.tla",
-        "a module's observable is what its own statements print when it is imported first",
-        "no namespace packages, conditional imports, sys.path manipulation",
-    ])
-    return code
+    return pm.drive(
+        PROP, tier, scopes(tier), INVARIANTS, replay_program, acts_of, quick_limit, act_key,
+        assumptions=[
+            "programs are straight-line module bodies over the statement alphabet of spec/PyModules.tla "
+            "(<= 5 modules, <= 2 package levels, <= 3 import statements and <= 2 references in the tidied module)",
+            "a module's observable is what its own statements print when it is imported first (output of other "
+            "modules during their import is not compared: sorting or removing imports may reorder it)",
+            "no import cycles, no reference that relies on another module having imported a submodule",
+            "idempotence is judged up to blank lines and the mutual order of import statements",
+            "no namespace packages, conditional imports, sys.path manipulation",
+        ],
+        rule="one request = (program enumerated by TLC, tidying action, preference set), applied twice; "
+             "non-trivial program = rope changed the module for at least one request",
+        env_prefix="C07", small_all=lambda name: True)
 
 
 if __name__ == "__main__":
